@@ -136,14 +136,27 @@ func setECS(
 	} else {
 		opt.SetUDPSize(dnsmsg.DefaultEDNSUDPSize)
 
-		for _, o := range opt.Option {
-			if edns, ok := o.(*dns.EDNS0_SUBNET); ok {
-				edns.SourceNetmask = prefixLen
-				edns.SourceScope = scope
-				edns.Address = ip
-
-				return nil
+		found := false
+		opt.Option = slices.DeleteFunc(opt.Option, func(o dns.EDNS0) (del bool) {
+			edns, ok := o.(*dns.EDNS0_SUBNET)
+			if !ok {
+				return false
+			} else if found {
+				// Only the first ECS option is rewritten.  Any further ones
+				// are the client's own data and must not be passed on.
+				return true
 			}
+
+			edns.SourceNetmask = prefixLen
+			edns.SourceScope = scope
+			edns.Address = ip
+			found = true
+
+			return false
+		})
+
+		if found {
+			return nil
 		}
 	}
 
